@@ -205,6 +205,29 @@ def family(t, sd):
         b = lits[(i + 3) % len(lits)]
         extra.append('min %s * x + y\ns.t.\n    %s * x + y >= %s\n    x - y <= k\nwhere\n    let k = %s\ndefine\n    x as Real(0, %s)\n    y as NonNegativeReal(0, 50)' % (a, b, a, b, '%s' % (float(a) + 100)))
         extra.append('max x\ns.t.\n    c%d: x / %s <= %s\n    abs{ x - %s } <= min{ %s, 9 }\ndefine\n    x as Real(-%s, 1000000)' % (i, a, b, a, b, b))
+    # iteration scopes with every binder shape - one name, a one-name tuple (binds the FIRST component, not the element),
+    # two- and three-name tuples, `_` placeholders - over ranges (both kinds), arrays, matrices, enumerate, graph nodes
+    # and edges, in blocks, quantified constraints and quantified declarations
+    G = 'let G = Graph {\n        A -> [B: 10, C],\n        B -> [A, C: 2],\n        C -> [A, B]\n    }'
+    binders = [
+        ('sum((u) in edges(G)) { x_u } <= 2', G, 'x_u as Boolean for u in nodes(G)'),
+        ('sum((u, v) in edges(G)) { x_u + x_v } <= 5', G, 'x_u as Boolean for u in nodes(G)'),
+        ('sum((u, v, c) in edges(G)) { x_u * c + x_v } <= 40', G, 'x_u as Boolean for u in nodes(G)'),
+        ('sum((_, v) in edges(G)) { x_v } <= 5', G, 'x_u as Boolean for u in nodes(G)'),
+        ('x_u + x_v <= 1 for (u, v) in edges(G)', G, 'x_u as Boolean for u in nodes(G)'),
+        ('x_u >= 0 for (u) in edges(G)', G, 'x_u as Boolean for u in nodes(G)'),
+        ('sum((r) in m) { r * y } <= 9', 'let m = [[1, 2], [3, 4]]', 'y as Real(0, 5)'),
+        ('sum((a, b) in m) { a * y + b } <= 30', 'let m = [[1, 2], [3, 4]]', 'y as Real(0, 5)'),
+        ('sum(r in m) { sum(e in r) { e * y } } <= 30', 'let m = [[1, 2], [3, 4]]', 'y as Real(0, 5)'),
+        ('sum((e, i) in enumerate(w)) { e * z_i } <= 7', 'let w = [2, 3, 5]', 'z_i as Boolean for i in 0..len(w)'),
+        ('sum(i in 0..=2) { z_i } >= 1', 'let w = [2, 3, 5]', 'z_i as Boolean for i in 0..len(w)'),
+        ('z_i + z_j <= 1 for i in 0..3, j in 0..3', 'let w = [2, 3, 5]', 'z_i as Boolean for i in 0..len(w)'),
+        ('max(i in 0..3) { z_i * w[i] } <= 4', 'let w = [2, 3, 5]', 'z_i as Boolean for i in 0..len(w)'),
+        ('min((e, i) in enumerate(w)) { e - z_i } >= 1', 'let w = [2, 3, 5]', 'z_i as Boolean for i in 0..len(w)'),
+    ]
+    for body, where, dom in binders:
+        extra.append('min 1\ns.t.\n    %s\nwhere\n    %s\ndefine\n    %s' % (body, where, dom))
+        extra.append('solve\ns.t.\n    named: %s\nwhere\n    %s\ndefine\n    %s' % (body, where, dom))
     for s in extra:
         items.append({'model': None, 'src': s, 'fam': 'hand'})
     # programs found in the repository's own tests / examples / docs: iterations, blocks, arrays, graphs,
